@@ -127,7 +127,10 @@ func c18Judge(c *Ctx, part, cell string, out string, exit int, killed bool, cs m
 func runC18(c *Ctx) {
 	reps := c.N(1, 6)
 	// (a)
-	type cell struct{ kind, point string; rep int }
+	type cell struct {
+		kind, point string
+		rep         int
+	}
 	var cells []cell
 	for rep := 0; rep < reps; rep++ {
 		for _, k := range c18Kinds {
@@ -143,7 +146,11 @@ func runC18(c *Ctx) {
 		c18Judge(c, "upstream", cl.kind+"/"+cl.point, out, exit, killed, map[string]any{"kind": cl.kind, "point": cl.point, "seed": c.Seed + int64(cl.rep)})
 	})
 	// (b)
-	type rcell struct{ scen string; n, pos int; fail string }
+	type rcell struct {
+		scen   string
+		n, pos int
+		fail   string
+	}
 	var rcells []rcell
 	rcells = append(rcells, rcell{scen: "full"})
 	r := gen.New(c.Seed, "c18rt", 0)
